@@ -111,7 +111,7 @@ func (e *run) modelAllowed(chain []*sql.Query, partBy []string) (bool, map[strin
 	for _, q := range chain {
 		levels = append(levels, levelJSON(q))
 	}
-	req := map[string]interface{}{"engine": "plan", "op": "pushdown", "partition_by": nonNil(partBy), "chain": levels}
+	req := map[string]interface{}{"engine": "plan", "op": "pushdown", "partition_by": nonNil(partBy), "table_group_by": e.curTableGB, "chain": levels}
 	var m struct {
 		Allowed bool `json:"allowed"`
 	}
